@@ -55,6 +55,8 @@ UnS(s) ==
     [] s.t = "emit" -> <<"<%=", " ">> \o UnE(s.e) \o <<" ", "%>">>
     [] s.t = "code" -> <<"<%", " ">> \o UnE(s.e) \o <<" ", "%>">>
     [] s.t = "let"  -> <<"<%", " ", "let", " ", s.n, " ", "=", " ">> \o UnE(s.e) \o <<" ", "%>">>
+    [] s.t = "letnl" -> <<"<%", "NL", "let", " ", s.n, " ", "=", "NL", " ", " ">> \o UnE(s.e) \o <<"NL", "%>">>
+    [] s.t = "rawtag" -> s.toks
     [] s.t = "ret"  -> <<"<%", " ", "return", " ">> \o UnE(s.e) \o <<" ", "%>">>
 
 Unparse(prog) == UnB(prog)
@@ -89,6 +91,8 @@ Emit(e)     == [t |-> "emit", e |-> e]
 Code(e)     == [t |-> "code", e |-> e]
 Let(n, e)   == [t |-> "let", n |-> n, e |-> e]
 Ret(e)      == [t |-> "ret", e |-> e]
+LetNL(n, e) == [t |-> "letnl", n |-> n, e |-> e]
+RawTag(toks) == [t |-> "rawtag", toks |-> toks]
 Cmt(s)      == [t |-> "cmt", s |-> s]
 
 \* the Go helpers the harness registers under these names (meanings: PlushSem.CallGo)
